@@ -21,9 +21,21 @@ let run () =
     | Some p ->
       let hd = words (String.sub line 0 p) and body = String.sub line (p + 1) (String.length line - p - 1) in
       (match hd with
-       | [kind; w; r; nb; start; len] ->
+       | kind :: w :: r :: nb :: start :: len :: rest when List.length rest <= 1 ->
+         let init = (match rest with [i] -> i | _ -> "z") in
          let w = int_of_string w and r = int_of_string r and nb = int_of_string nb and start = int_of_string start and len = int_of_string len in
          let dev = ref (Adapt.fresh_dev (n_of_int cap) (n_of_int w) (n_of_int r) (n_of_int erase)) in
+         (* initial contents (mirrors init_mem of the harness); the default is fresh_dev's all-zero device *)
+         let k = (try int_of_string (String.sub init 1 (String.length init - 1)) with _ -> 0) in
+         let ff = n_of_int 255 and zz = n_of_int 0 in
+         (match init.[0] with
+          | 'b' -> dev := { !dev with Adapt.wm = (fun _ -> ff) }
+          | 't' -> let e = start + len in let lo = max start (e - k) in
+                   dev := { !dev with Adapt.wm = (fun a -> let x = int_of_n a in if x >= lo && x < e then zz else ff) }
+          | 'h' -> let hi = min (start + k) (start + len) in
+                   dev := { !dev with Adapt.wm = (fun a -> let x = int_of_n a in if x >= start && x < hi then zz else ff) }
+          | 'a' -> dev := { !dev with Adapt.wm = (fun a -> if int_of_n a mod 2 = 0 then n_of_int 0xA5 else ff) }
+          | _ -> ());
          let mark = ref 0 in
          let take () = let l = (!dev).Adapt.wlog in
            let fresh = List.rev (firstn (List.length l - !mark) l) in mark := List.length l; fmt_log fresh in
